@@ -788,7 +788,12 @@ rt_prop("C02", ["task", "core", "bridge", "comb"],
 rt_prop("C03", ["core", "bridge"],
         "Proof (Props/C03.lean): update applies exactly one event (update_applies_one); running tasks never touches the model "
         "(tasks_do_not_touch_model); the event loop only appends to the log and applies the head of the FIFO channel next "
-        "(events_fifo_once, emission_fifo); at return every emitted event has been applied (all_applied_at_return). Re-entrancy is "
+        "(events_fifo_once, emission_fifo); at return every emitted event has been applied (all_applied_at_return). THROUGH A WHOLE "
+        "CALL, for every app, world and fuel: history_append_only — the history log ++ channel only ever grows at its END (update "
+        "moves the head of the channel to the end of the log; every emission, by the CommandSpawner or by a legacy task at any "
+        "point of its poll, appends), so nothing applied or waiting is lost, duplicated or reordered; "
+        "waiting_events_applied_first_in_order, shell_event_applied_first; OVER WHOLE RUNS: channel_empty_between_calls, "
+        "applied_events_never_revised (Lemmas/EvOrder.lean). Re-entrancy is "
         "structural in the model and monitored on the implementation by a flag in the harness app (oracle key reentrant-update).")
 rt_prop("C04", ["comb", "task", "law", "comm"],
         "Proof (Props/C04.lean) on the reference semantics M.Rt: then = host first, then host second, and a block moves past `host c` "
